@@ -30,6 +30,7 @@ FOCUS = {
     "C11": dict(lock=1, cv=2, mw=1, wn=5, dbg=0),
     "C13": dict(lock=1, cv=3, mw=1, wn=4, dbg=0),
     "C16": dict(lock=3, cv=2, mw=1, wn=0, dbg=4),
+    "C15": dict(lock=1, cv=3, mw=3, wn=3, dbg=0, timed=True),
 }
 
 
@@ -158,7 +159,7 @@ def gennote(seed, focus="C08"):
 
     def dl():
         return r.choice([NONE, NONE, 1, 2, -1])
-    wweights = dict(C08=[4, 2, 2, 3, 1], C09=[2, 1, 1, 3, 4], C11=[2, 6, 1, 1, 1], C13=[2, 4, 3, 1, 1], C05=[1, 1, 6, 1, 1], C10=[1, 5, 1, 1, 0]).get(focus, [2, 2, 2, 2, 1])
+    wweights = dict(C08=[4, 2, 2, 3, 1], C09=[2, 1, 1, 3, 4], C11=[2, 6, 1, 1, 1], C13=[2, 4, 3, 1, 1], C05=[1, 1, 6, 1, 1], C10=[1, 5, 1, 1, 0], C15=[4, 4, 3, 1, 1]).get(focus, [2, 2, 2, 2, 1])
     for t in range(nthreads - 1):
         nops = r.choice([1, 2, 2, 3])
         for _ in range(nops):
